@@ -153,14 +153,13 @@ class Check:
         self.seed = int(seed)
         self.rng = random.Random(self.seed)
         self.t0 = time.time()
-        self.work = WORK / pid
+        # one scratch directory per process (several runs of the same check may overlap)
+        self.work = WORK / ("%s.%d" % (pid, os.getpid()))
         if self.work.exists():
             shutil.rmtree(self.work)
         (self.work / "gen").mkdir(parents=True)
         self.replay_dir = WORK / "replays" / pid
-        if self.replay_dir.exists():
-            shutil.rmtree(self.replay_dir)
-        self.replay_dir.mkdir(parents=True)
+        self.replay_dir.mkdir(parents=True, exist_ok=True)
         self.violations = []
         self.proof = None
         self.proofs = []
@@ -426,6 +425,9 @@ class Check:
             cov["explanation"] = "proof step did not discharge any obligation in this run"
         (VERIF / "evidence").mkdir(exist_ok=True)
         (VERIF / "evidence" / (self.pid + ".json")).write_text(json.dumps(ev, indent=1, default=str))
+        # keep the scratch directory only when something has to be looked at
+        if not new:
+            shutil.rmtree(self.work, ignore_errors=True)
         for l in lines:
             print(l)
         print("%s: %d obligations (%d discharged), %d cases (%d distinct non-trivial), %d known finding(s), "
